@@ -1546,7 +1546,9 @@ class HubSyncGate:
     def __init__(self, wd, root, locals_, env, rng, policy):
         import socket as _s
         self.wd, self.root, self.locals, self.env, self.rng, self.policy = wd, os.path.realpath(root), locals_, env, rng, policy
-        self.sockpath = os.path.join(wd, "g.sock")
+        HubSyncGate._sock_counter = getattr(HubSyncGate, "_sock_counter", 0) + 1
+        self.sockname = "fsmon-hs-%d-%d" % (os.getpid(), HubSyncGate._sock_counter)
+        self.sockpath = "@" + self.sockname
         self.procs = []
         self.gates = {}
         self.bufs = {}
@@ -1566,7 +1568,7 @@ class HubSyncGate:
     def run(self):
         import socket as _s
         lst = _s.socket(_s.AF_UNIX, _s.SOCK_STREAM)
-        lst.bind(self.sockpath)
+        lst.bind("\0" + self.sockname)
         lst.listen(8)
         lst.settimeout(20)
         for i, local in enumerate(self.locals):
